@@ -140,7 +140,8 @@ theorem C15_fixed_names_not_field_vars :
 
 theorem C15_fixed_names_indexed_families :
     (DW.Generated.genFixedNames.filter (fun r => endsIndexed r.toList)).all
-      (fun r => "_skip_".isPrefixOf r || "_default_".isPrefixOf r || "fields_".isPrefixOf r || "_skip_if_".isPrefixOf r) = true := by
+      (fun r => "_skip_".isPrefixOf r || "_default_".isPrefixOf r || "fields_".isPrefixOf r || "typed_fields_".isPrefixOf r ||
+        "_skip_if_".isPrefixOf r) = true := by
   decide +kernel
 
 /-- a type local is never one of the non-indexed internal names -/
